@@ -64,6 +64,10 @@ type OpEngine struct {
 	Closures    map[string]bool
 
 	deep         bool
+	draws        []drawRec
+	dataMode     bool
+	curLabel     string
+	ElemChecks   int
 	curDims      []sym.Poly
 	baseline     int  // cells with id <= baseline existed before the call under analysis
 	watch        bool // report stores to pre-existing cells
@@ -157,7 +161,7 @@ func isFloat(t types.Type) bool {
 
 // dataLayer reports whether fn only moves or computes element data (so the shape/graph analysis skips it).
 func (e *OpEngine) dataLayer(fn *ssa.Function, args []interp.Value) bool {
-	if core.PkgPathOf(fn) != core.PkgCPU {
+	if e.dataMode || core.PkgPathOf(fn) != core.PkgCPU {
 		return false
 	}
 	exported := fn.Parent() == nil && fn.Object() != nil && fn.Object().Exported()
@@ -321,6 +325,9 @@ func (e *OpEngine) static(m *interp.Machine, fn *ssa.Function, args []interp.Val
 		si := e.W.InfoOf(sp)
 		ii := e.W.InfoOf(ip)
 		ii.Elem, ii.Rng, ii.Has = si.Elem, si.Rng, true
+		if e.dataMode && si.Has && name != "RandU" && name != "RandN" {
+			e.compareData(key, e.P.FuncPos(fn), ip, si.Elem, e.curLabel+" / "+e.describeCall(n))
+		}
 		// S1a: no tensor escapes without a gradient context
 		if _, ok := e.W.GctxOf(ip); !ok {
 			e.find("S1a.gctx", key, "missing-context", e.P.FuncPos(fn), "returns a tensor whose gradient context is nil")
@@ -369,6 +376,12 @@ func splitResult(v interp.Value) (t interp.Value, isErr bool) {
 // neither; otherwise the test forks.
 func (e *OpEngine) external(m *interp.Machine, fn *ssa.Function, args []interp.Value) (interp.Value, bool) {
 	name := fn.String()
+	if fn.Name() == "Rand" && fn.Signature.Recv() != nil && len(args) >= 1 {
+		rt := fn.Signature.Recv().Type()
+		if n, ok := rt.(*types.Named); ok && n.Obj().Pkg() != nil && n.Obj().Pkg().Path() == "gonum.org/v1/gonum/stat/distuv" {
+			return e.distuvRand(n.Obj().Name(), args[0], rt)
+		}
+	}
 	if name != "math.IsNaN" && name != "math.IsInf" {
 		return nil, false
 	}
